@@ -2,20 +2,9 @@
   C20 — the query hash identifies structure and nothing else.
 -/
 import Fadl.Model.Hash
+import Fadl.Model.Render
 import Fadl.Lemmas.Basic
 namespace Fadl
-
-/-! ### well-formed field trees: every listed field has a value -/
-
-mutual
-def WFTree : Tree → Bool
-  | .node _ fns fvs => decide (fns.length = fvs.length) && WFTreeL fvs
-  | .list xs => WFTreeL xs
-  | .leaf _ => true
-def WFTreeL : List Tree → Bool
-  | [] => true
-  | t :: ts => WFTree t && WFTreeL ts
-end
 
 /-! ### the token stream determines the tree (prefix-freeness induction) -/
 
